@@ -7,173 +7,7 @@ import (
 	"go/ast"
 )
 
-// C06/C07/C19 share this file's source model: a Go source text and the
-// *ast.File go/parser would produce for it are built together from pieces, so
-// every position is consistent by construction (assumption A-parser: go/parser
-// reports exactly these positions, tag literals and trailing comments; the
-// native replay runs the real parser on the same bytes).
-
-func vNoByte(s string, c byte) bool {
-	ok := true
-	for i := 0; i < len(s); i++ {
-		ok = vAnd(ok, s[i] != c)
-	}
-	return ok
-}
-
-// vKey: a tag key, \w bytes
-func vKey(name string, max int) string {
-	k := vndString(name, max)
-	vAssume(len(k) > 0)
-	for i := 0; i < len(k); i++ {
-		c := k[i]
-		vAssume(vOr(vOr(vAnd(c >= 'a', c <= 'z'), vAnd(c >= 'A', c <= 'Z')), vOr(vAnd(c >= '0', c <= '9'), c == '_')))
-	}
-	return k
-}
-
-// vVal: a tag value: non-empty, no double quote, no backquote, no newline; anything else incl. '$', '\', space, non-ASCII
-func vTagVal(name string, max int, ascii bool) string {
-	v := vndString(name, max)
-	vAssume(len(v) > 0)
-	vAssume(vNoByte(v, '"'))
-	vAssume(vNoByte(v, '`'))
-	vAssume(vNoByte(v, '\n'))
-	vAssume(vNoByte(v, '\r'))
-	vAssume(vNoByte(v, 0)) // go/scanner rejects NUL
-	if ascii {
-		for i := 0; i < len(v); i++ {
-			vAssume(v[i] < 0x80)
-		}
-	} else {
-		vAssume(vValidUTF8(v))
-		vAssume(vNoByte(v, '$')) // '$' is covered by the ASCII variant (Go's template names accept unicode letters)
-	}
-	return v
-}
-
-// vSrcText: bytes that may appear inside a // comment of a Go file (what go/scanner accepts)
-func vSrcText(name string, max int) string {
-	c := vndString(name, max)
-	vAssume(vValidUTF8(c))
-	vAssume(vNoByte(c, 0))
-	vAssume(vNoByte(c, '\n'))
-	vAssume(vNoByte(c, '\r'))
-	return c
-}
-
-type vItem struct{ k, v string }
-
-func vItemsText(items []vItem, sep string) string {
-	s := ""
-	for i, it := range items {
-		if i > 0 {
-			s += sep
-		}
-		s += it.k + ":\"" + it.v + "\""
-	}
-	return s
-}
-
-// vMerge: the statement's merge rule. Old keys keep their position; a mentioned key takes the
-// injected value; new keys follow in the order of the comment; no key twice.
-func vMerge(old, inj []vItem) []vItem {
-	var out []vItem
-	used := make([]bool, len(inj))
-	for _, o := range old {
-		it := o
-		for j := range inj {
-			if !used[j] && inj[j].k == o.k {
-				it = inj[j]
-				used[j] = true
-				break
-			}
-		}
-		out = append(out, it)
-	}
-	for j := range inj {
-		if !used[j] {
-			out = append(out, inj[j])
-		}
-	}
-	return out
-}
-
-func vDistinctKeys(items []vItem) {
-	for i := range items {
-		for j := 0; j < i; j++ {
-			vAssume(items[i].k != items[j].k)
-		}
-	}
-}
-
-func vItems(prefix string, n int, ascii bool) []vItem { return vItemsN(prefix, n, ascii, 2, 2) }
-
-func vItemsN(prefix string, n int, ascii bool, kmax, vmax int) []vItem {
-	var out []vItem
-	for i := 0; i < n; i++ {
-		out = append(out, vItem{vKey(prefix+"k"+vDigit(i), kmax), vTagVal(prefix+"v"+vDigit(i), vmax, ascii)})
-	}
-	vDistinctKeys(out)
-	return out
-}
-
-func vDigit(i int) string { return string([]byte{byte('0' + i)}) }
-
-// ---- merge level: newTagItems / override / format / injectTag ----
-
-func vC06Merge(nOld, nInj int, ascii bool, kmax, vmax int) {
-	old := vItemsN("o", nOld, ascii, kmax, vmax)
-	inj := vItemsN("i", nInj, ascii, kmax, vmax)
-	// the existing literal may separate items by any run of blanks
-	sep := []string{" ", " \t "}[vndChoice("sep", 2)]
-	oldText := vItemsText(old, sep)
-	injText := vItemsText(inj, " ")
-	pre := vndStringN("pre", 1) // arbitrary bytes around the field expression
-	post := vndStringN("post", 1)
-	expr := "F string `" + oldText + "`"
-	contents := pre + expr + post
-	start := len(pre) + 1 // token.Pos is offset+1
-	area := textArea{Start: start, End: start + len(expr), CurrentTag: oldText, InjectTag: injText}
-	got := string(injectTag([]byte(contents), area))
-	want := pre + "F string `" + vItemsText(vMerge(old, inj), " ") + "`" + post
-	vAssert(got == want, "C06 merge: injected keys carry the comment's value, other keys keep value and position, new keys appended, bytes outside the literal unchanged")
-	vReach("end")
-}
-
-func H_C06_merge_0_1()  { vC06Merge(0, 1, true, 2, 3) }
-func H_C06_merge_1_1()  { vC06Merge(1, 1, true, 2, 3) }
-func H_C06_merge_1_2()  { vC06Merge(1, 2, true, 2, 2) }
-func H_C06_merge_2_1()  { vC06Merge(2, 1, true, 2, 2) }
-func H_C06_merge_2_2()  { vC06Merge(2, 2, true, 1, 2) }
-func H_C06T_merge_2_2() { vC06Merge(2, 2, true, 2, 2) }
-func H_C06_merge_0_2()  { vC06Merge(0, 2, true, 2, 2) }
-func H_C06_merge_utf8() { vC06Merge(1, 1, false, 2, 4) }
-func H_C06T_merge_3_2() { vC06Merge(3, 2, true, 2, 2) }
-func H_C06T_merge_2_3() { vC06Merge(2, 3, true, 2, 2) }
-func H_C06T_merge_3_3() { vC06Merge(3, 3, true, 1, 2) }
-
-// tagFromComment: the text after "@tag " up to the end of the comment
-func H_C06_comment() {
-	before := vndString("before", 2)
-	vAssume(vNoByte(before, '@'))
-	vAssume(vNoByte(before, '\n'))
-	inj := vndString("inj", 3)
-	vAssume(vNoByte(inj, '\n'))
-	switch vndChoice("shape", 4) {
-	case 0:
-		vAssert(tagFromComment("// "+before+"@tag "+inj) == inj, "C06 comment: text after '@tag ' is the injected tag")
-	case 1:
-		vAssert(tagFromComment("// "+before+inj) == "" || vNot(vNoByte(inj, '@')), "C06 comment: no '@tag ' marker, nothing injected")
-	case 2:
-		vAssert(tagFromComment("// "+before+"@tag") == "", "C06 comment: '@tag' without following text injects nothing")
-	case 3:
-		vAssert(tagFromComment("/* "+before+"@tag "+inj+" */") == inj+" */", "C06 comment: block comment text after the marker")
-	}
-	vReach("end")
-}
-
-// ---- file level ----
+// black-box harnesses of C06: ParseFile + WriteFile over the file model, nothing else of package file is named
 
 func vRunInjector(rel, src string, f *ast.File) (string, error) {
 	vFSPut(rel, src)
@@ -376,36 +210,3 @@ func H_C06_file_unexported_and_identical() {
 // key names as they occur in real files (the symbolic keys above are 1..2 bytes of \w): the keys protoc-gen-go
 // itself writes, the usual library keys, keys that are prefixes / suffixes of each other, keys with digits,
 // underscores and upper case; every ordered pair (existing key, injected key) with symbolic values
-var vC06Keys = []string{"protobuf", "json", "protobuf_key", "protobuf_val", "protobuf_oneof", "valid", "xml", "yaml", "bson", "gorm", "form",
-	"binding", "validate", "db", "mapstructure", "json2", "JSON", "_", "x_y", "protobuf2", "key", "val", "oneof", "tag", "inject", "go", "type", "string"}
-
-func vC06RealKeys(lo, hi int) {
-	i := lo + vndChoice("old", hi-lo)
-	j := vndChoice("inj", len(vC06Keys))
-	old := []vItem{{vC06Keys[i], vTagVal("ov0", 2, true)}, {"zzz", "keep"}}
-	inj := []vItem{{vC06Keys[j], vTagVal("iv0", 2, true)}}
-	oldText := vItemsText(old, " ")
-	injText := vItemsText(inj, " ")
-	expr := "F string `" + oldText + "`"
-	area := textArea{Start: 1, End: 1 + len(expr), CurrentTag: oldText, InjectTag: injText}
-	got := string(injectTag([]byte(expr+"\n"), area))
-	want := "F string `" + vItemsText(vMerge(old, inj), " ") + "`\n"
-	vAssert(got == want, "C06 merge with real key names: the injected key carries the comment's value whatever it is called")
-	vReach("end")
-}
-
-func H_C06_real_keys_00() { vC06RealKeys(0, 2) }
-func H_C06_real_keys_01() { vC06RealKeys(2, 4) }
-func H_C06_real_keys_02() { vC06RealKeys(4, 6) }
-func H_C06_real_keys_03() { vC06RealKeys(6, 8) }
-func H_C06_real_keys_04() { vC06RealKeys(8, 10) }
-func H_C06_real_keys_05() { vC06RealKeys(10, 12) }
-func H_C06_real_keys_06() { vC06RealKeys(12, 14) }
-func H_C06_real_keys_07() { vC06RealKeys(14, 16) }
-func H_C06_real_keys_08() { vC06RealKeys(16, 18) }
-func H_C06_real_keys_09() { vC06RealKeys(18, 20) }
-func H_C06_real_keys_10() { vC06RealKeys(20, 22) }
-func H_C06_real_keys_11() { vC06RealKeys(22, 24) }
-func H_C06_real_keys_12() { vC06RealKeys(24, 26) }
-func H_C06_real_keys_13() { vC06RealKeys(26, 28) }
-
